@@ -148,6 +148,24 @@ def comeback_scenario(name, transport, ivl, mx, down_ms):
                                            {"op": "getopt", "sock": "tx", "id": S.SNDHWM}]}]}
 
 
+def wrongpeer_scenario(name, ivl, mx, mode, nwrong=6):
+    """whatever listens on the port answers every connection wrongly (garbage / FIN at once) - then a real PULL
+    takes the port: the chain of retries must still be alive and traffic must start"""
+    return {"name": name, "deadline_ms": 40000, "meta": {"kind": "comeback", "ivl": ivl, "max": mx, "down": 0, "conns": [["c", "tx", True], ["back", "tx", True]], "socks": ["tx"]},
+            "sockets": [{"name": "tx", "type": "PUSH", "opts": [S.i32(S.RECONNECT_IVL, ivl), S.i32(S.RECONNECT_IVL_MAX, mx), S.i32(S.SNDTIMEO, 8000)]},
+                        {"name": "rx2", "type": "PULL", "opts": []}],
+            "tasks": [{"name": "r", "ops": [{"op": "raw_listen", "raw": "L", "save": "ep"}, {"op": "barrier", "name": "go", "parties": 2},
+                                           {"op": "raw_accept_loop", "listener": "L", "n": nwrong, "mode": mode, "timeout_ms": 2500}, {"op": "raw_drop_listener", "listener": "L"},
+                                           {"op": "mark", "name": "down"}, {"op": "sleep", "ms": 50}, {"op": "bind", "sock": "rx2", "ep": "$ep"}, {"op": "mark", "name": "back"},
+                                           {"op": "barrier", "name": "isback", "parties": 2}, {"op": "recv_n", "sock": "rx2", "n": 30, "timeout_ms": 6000}]},
+                      {"name": "t", "ops": [{"op": "barrier", "name": "go", "parties": 2}, {"op": "connect", "sock": "tx", "ep": "$ep"},
+                                           # nothing is sent before the real peer is there (what is handed to a connection that never
+                                           # completes its handshake is C13-d)
+                                           {"op": "barrier", "name": "isback", "parties": 2}, {"op": "sleep", "ms": 700},
+                                           {"op": "send_n", "sock": "tx", "prefix": "back", "n": 30, "sizes": [64], "max_errs": 2},
+                                           {"op": "getopt", "sock": "tx", "id": S.SNDHWM}]}]}
+
+
 def build(thorough):
     scs = []
     # --- inbound hub, raw faults over tcp
@@ -211,6 +229,9 @@ def build(thorough):
     scs.append(dead_scenario("deadchurn-100-400", 100, 400, churn=True))
     for (tr, ivl, mx, down) in ([("tcp", 50, 200, 700), ("tcp", 100, 0, 400), ("ipc", 50, 200, 700), ("ipc", 100, 0, 400)] if thorough else [("tcp", 50, 200, 700), ("ipc", 50, 200, 700)]):
         scs.append(comeback_scenario("comeback-%s-%d-%d" % (tr, ivl, mx), tr, ivl, mx, down))
+    for mode in ["garbage", "close"]:
+        for rep in range(3 if thorough else 2):
+            scs.append(wrongpeer_scenario("wrongpeer-%s-50-200-%d" % (mode, rep), 50, 200, mode))
     return scs
 
 
@@ -290,6 +311,10 @@ def to_events(sc, meta, r):
     if kind == "comeback":
         marks = {x["name"]: x["t"] for x in recs if x.get("ev") == "mark"}
         firstback = next((x for x in recs if x.get("ev") == "ret" and x.get("op") == "recv" and x.get("sock") == "rx2" and x.get("res") == "ok"), None)
+        # the clock starts when both are true: the listener is back and the application has begun to send again
+        firstcall = next((x["t"] for x in recs if x.get("ev") == "call" and x.get("op") == "send" and str(x.get("mid", "")).startswith("back:")), None)
+        if "back" in marks and firstcall is not None:
+            marks["back"] = max(marks["back"], firstcall)
         if "back" in marks and firstback is not None:
             # ComesBack in time: the first message arrives within one (capped) delay of the listener's return
             cap = meta["max"] if meta["max"] > 0 else max(meta["ivl"] * 2 ** 5, 1000)
